@@ -116,6 +116,31 @@ def typesFamily (fam : String) : Option (Parser String) :=
   | "addr_solution" => some do
     let s ← pSolution; done
     pure (hexOfBytes (solutionAddr Sha256.sha256 s) ++ " " ++ hexOfBytes (pcSolution s))
+  | "conv" => some do
+    let kind ← tok
+    match kind with
+    | "w2b" => do let w ← int; done; pure (hexOfBytes (bytesOfWord w))
+    | "b2w" => do let b ← bytes; done; if b.length = 8 then pure (toString (wordOfBytes b)) else failure
+    | "bs2w" => do
+      let b ← bytes; done
+      let b8 := (b.take 8) ++ List.replicate (8 - (b.take 8).length) 0
+      pure (toString (wordOfBytes b8))
+    | "w4" => do let b ← bytes; done; if b.length = 32 then pure (showWords (wordsOfBytes b)) else failure
+    | "w8" => do let b ← bytes; done; if b.length = 64 then pure (showWords (wordsOfBytes b)) else failure
+    | "u32" => do let ws ← words; done; if ws.length = 4 then pure (hexOfBytes (bytesOfWords ws)) else failure
+    | "u64" => do let ws ← words; done; if ws.length = 8 then pure (hexOfBytes (bytesOfWords ws)) else failure
+    | "hex" => do
+      let ws ← words; done
+      pure ("s" ++ ((hexOfBytes (bytesOfWords ws)).drop 1).toString)
+    | "unhex" => do
+      let t ← tok; done
+      match t.toList with
+      | 's' :: cs => pure (match parseHex cs with | some b => s!"ok {showWords (wordsOfBytes b)}" | none => "err")
+      | _ => failure
+    | "bool" => do
+      let w ← int; done
+      pure (match boolOfWord? w with | some b => s!"some {b}" | none => "none")
+    | _ => failure
   | "pc" => some do
     let kind ← tok
     match kind with
